@@ -51,7 +51,12 @@ func init() {
 
 		"(*sync.Mutex).Lock":      extMutexLock,
 		"(*sync.Mutex).Unlock":    extMutexUnlock,
-		"(*sync.Mutex).TryLock":   func(fr *frame, a []value) value { return true },
+		// (threads run one after the other in the model, so the lock is
+		// always free: TryLock succeeds and is an acquisition like Lock)
+		"(*sync.Mutex).TryLock": func(fr *frame, a []value) value {
+			fr.i.path.lockEvent(a[0].(*value), true)
+			return true
+		},
 		"(*sync.RWMutex).Lock":    extNop,
 		"(*sync.RWMutex).Unlock":  extNop,
 		"(*sync.RWMutex).RLock":   extNop,
